@@ -121,8 +121,16 @@ func c41innerNest(n int) []byte {
 
 func c41nests() map[string][]byte {
 	out := map[string][]byte{}
-	for _, n := range []int{1, 8, 60, 120, 127, 128, 129, 250, 300, 5000, 200000} {
-		out["inner transactions nested "+itoa41(n)+" deep"] = c41innerNest(n)
+	// every level costs at least one nested UnmarshalMsgWithState call, the budget is 255
+	// (protocol.maxMsgpDecodeDepth): 256 levels and more MUST be refused. (The largest input is
+	// kept at 50 000 levels so that even a decoder without any limit survives it: a stack
+	// overflow is fatal, not a verdict.)
+	for _, n := range []int{1, 8, 60, 120, 127, 128, 129, 250, 256, 300, 1000, 5000, 50000} {
+		label := "inner transactions nested " + itoa41(n) + " deep (map form)"
+		if n >= 256 {
+			label = "must-reject: " + label
+		}
+		out[label] = c41innerNest(n)
 	}
 	return out
 }
@@ -196,7 +204,7 @@ func TestVerif_C41_agreement(t *testing.T) {
 	r.Assume("allocbound values come from the constants named in the codec tags (exported ones referenced directly; the unexported crypto.maxMultisig=255, transactions.encodedMax*=32, protocol.txTypeMaxLen=7 are transcribed)")
 	r.Assume("UnmarshalMsg is invoked directly; protocol.DecodeMsgp's recover() is therefore never what keeps a panic from escaping")
 	n := r.Finish(ve.Coverage{
-		Rule:       "part agreement: for each of the registered wire/disk types, 2-3 valid seeds (all fields set, 1- and 2-element collections): every truncation; every byte x 17-marker alphabet; every array/map/bin/str header re-declared {0,n-1,n+1,15,16,31,32,255,256,65536, then bound+1 and 2^32-1 where safe}; unknown and duplicate map keys; 300-deep nesting in place of every value; inner-transaction recursion 1..200000 deep; all pairs of structural bytes x 4 markers for votes and one-time signatures; bound+1 over-bound instances for every bounded collection",
+		Rule:       "part agreement: for each of the registered wire/disk types, 2-3 valid seeds (all fields set, 1- and 2-element collections): every truncation; every byte x 17-marker alphabet; every array/map/bin/str header re-declared {0,n-1,n+1,15,16,31,32,255,256,65536, then bound+1 and 2^32-1 where safe}; unknown and duplicate map keys; 300-deep nesting in place of every value; inner-transaction recursion 1..50000 levels deep (256 and more must be refused); all pairs of structural bytes x 4 markers for votes and one-time signatures; bound+1 over-bound instances for every bounded collection",
 		Exhaustive: true,
 	})
 	if n > 0 {
